@@ -222,6 +222,11 @@ BagObl(px, b, den, bind, natural) ==
 (*   add      R = A + Substance(toks2); then A is observed again (A2) and  *)
 (*            the second operand too (B): operands are not altered         *)
 (*   mul      R = A * n; A observed again (A2)                             *)
+(*   iadd     A += Substance(toks2), imul  A *= n : the augmented          *)
+(*            assignments; what the name A then denotes is observed as R   *)
+(*            (and the right operand again, B)                             *)
+(*   addel    R = A + Element(v, n): a single component as right operand;  *)
+(*            A observed again (A2)                                        *)
 (*   addin    A.add(v, n) in place, observed as R; afterwards toks2 (B)    *)
 (*            and toks itself (C) are parsed afresh: what was done to one  *)
 (*            object does not reach formulas parsed later                  *)
@@ -234,12 +239,12 @@ FormulaRec(it) ==
   IF ~Parses(it.toks) THEN [id |-> it.id, kind |-> "formula", cls |-> "ill", toks |-> it.toks]
   ELSE
   LET bag  == Expand(ast)
-      two  == it.op \in {"add", "addin"}
+      two  == it.op \in {"add", "iadd", "addin"}
       ast2 == IF two THEN ParseIdeal(it.toks2) ELSE <<>>
       ok2  == ~two \/ Parses(it.toks2)
       bag2 == IF two /\ ok2 THEN Expand(ast2) ELSE BZero
-      bagR == CASE it.op = "add"   -> BAdd(bag, bag2)
-                [] it.op = "addin" -> BAdd(bag, BScale(it.n[1], BUnit(it.v)))
+      bagR == CASE it.op \in {"add", "iadd"} -> BAdd(bag, bag2)
+                [] it.op \in {"addin", "addel"} -> BAdd(bag, BScale(it.n[1], BUnit(it.v)))
                 [] OTHER -> bag
       all  == BAdd(bagR, bag2)
       used == {v \in Vars : all[v] > 0}
@@ -259,6 +264,9 @@ FormulaRec(it) ==
                ELSE O("A.", bag, 1)
                     \o (CASE it.op = "add"     -> O("R.", bagR, 1) \o O("A2.", bag, 1) \o O("B.", bag2, 1)
                            [] it.op = "mul"     -> O("R.", BScale(it.n[1], bag), it.n[2]) \o O("A2.", bag, 1)
+                           [] it.op = "iadd"    -> O("R.", bagR, 1) \o O("B.", bag2, 1)
+                           [] it.op = "imul"    -> O("R.", BScale(it.n[1], bag), it.n[2])
+                           [] it.op = "addel"   -> O("R.", bagR, 1) \o O("A2.", bag, 1)
                            [] it.op = "addin"   -> O("R.", bagR, 1) \o O("B.", bag2, 1) \o O("C.", bag, 1)
                            [] it.op = "perturb" -> O("R.", bag, 1)
                            [] OTHER -> <<>>)]
